@@ -414,6 +414,7 @@ func RunCheck(p Prop, o Options) int {
 
 	// confirm fresh violations: re-run 5x in the same mode, must reproduce
 	exit := 0
+	deadlineMisses := 0
 	var confirmed []string
 	for _, s := range fresh {
 		a := viols[s]
@@ -451,6 +452,13 @@ func RunCheck(p Prop, o Options) int {
 		}
 		if ok == 5 {
 			confirmed = append(confirmed, s)
+		} else if ok == 0 && strings.HasSuffix(s, "hang") {
+			// a deadline is a wall-clock limit: a case that missed it once (machine under load) and then
+			// finishes five times out of five is no finding and no sign of a harness defect. The case is
+			// not counted as covered by the first run: the run is not exhaustive.
+			fmt.Fprintf(os.Stderr, "HARNESS-NOTE: %s: a deadline was missed once and the case finished in 5 of 5 re-runs (%s); run reported as not exhaustive\n", s, a.first.What)
+			exhaustive = false
+			deadlineMisses++
 		} else {
 			fmt.Fprintf(os.Stderr, "HARNESS-NONDETERMINISM: %s reproduced %d/5 (%s)\n", s, ok, a.first.What)
 			exit = 2
@@ -492,20 +500,21 @@ func RunCheck(p Prop, o Options) int {
 		samples = append(samples, v)
 	}
 	cov := map[string]interface{}{
-		"evaluations":              evals,
-		"cases":                    ncases,
-		"distinct_nontrivial":      int64(len(nontriv)) + nontrivDirect,
-		"rule":                     p.Rule(),
-		"samples":                  samples,
-		"exhaustive":               exhaustive,
-		"bounds":                   p.Bounds(o.Tier),
-		"distinct_outcomes":        len(outcomes),
-		"outcomes":                 outcomes,
-		"known_findings_hit":       knownHit,
-		"stale_known_findings":     stale,
-		"new_violation_signatures": confirmed,
-		"workers":                  o.Workers,
-		"cases_enumerated":         total,
+		"evaluations":                    evals,
+		"cases":                          ncases,
+		"distinct_nontrivial":            int64(len(nontriv)) + nontrivDirect,
+		"rule":                           p.Rule(),
+		"samples":                        samples,
+		"exhaustive":                     exhaustive,
+		"deadline_misses_not_reproduced": deadlineMisses,
+		"bounds":                         p.Bounds(o.Tier),
+		"distinct_outcomes":              len(outcomes),
+		"outcomes":                       outcomes,
+		"known_findings_hit":             knownHit,
+		"stale_known_findings":           stale,
+		"new_violation_signatures":       confirmed,
+		"workers":                        o.Workers,
+		"cases_enumerated":               total,
 	}
 	if p.Level() == "model_checking" {
 		cov["states"] = states
@@ -705,7 +714,7 @@ func deadlineOf(id string) time.Duration {
 
 // SplitDeadline is the deadline of a member of a crashing batch run on its own (a single
 // input takes milliseconds; a hang must not cost the batch deadline once per member).
-var SplitDeadline = 8 * time.Second
+var SplitDeadline = 20 * time.Second
 
 // crashAttributions counts, per crash signature, how many crashing batches were taken apart;
 // after maxAttributions the remaining ones are reported at batch level.
